@@ -18,7 +18,8 @@ func init() {
 			"R3 containment test — path-sensitive decision table of the filter: a comment is dropped iff c.Pos() >= dr.Start && c.End() <= dr.End of the same interval (lower bound and upper bound, non-strict), intervals with Start == NoPos are ignored, both copies; " +
 			"R4 comments of the '+' pattern are never emitted (the replacer compiler maps *ast.CommentGroup to a typed nil); R5 the changelog records spans exactly as given — Changed/Unchanged build span{Start: start, End: end} from their parameters without reordering (inverted regions reported by the differ stay empty); " +
 			"R6 in the AST differ, list elements the edit script marks Identity are carried over as unchanged (their comments stay attached in the new snapshot). " +
-			"NOT decided: the interval computation itself (astdiff regions + Myers diff + line merging) — algorithmic, not decidable by shape; attachment of comments by go/printer.",
+			"NOT decided: the interval computation itself (astdiff regions + Myers diff + line merging) — algorithmic, not decidable by shape; attachment of comments by go/printer." +
+			" R8 edit regions stop at the neighbours' comments (regions[i] reported as computed, monotone comment clamps, position-only classification in commentsFor); R1 also: File.Comments is only assigned the clean-up step's filtered own list.",
 		Trusted:     commonTrusted,
 		Assumptions: commonAssumptions,
 	})
